@@ -25,17 +25,31 @@ for p in patches:
             print(sid, matrix[sid], flush=True)
             continue
         row = {}
+        import importlib
+        from rules.engine.run import Ctx
+        from rules.engine.core import Program, MissingAnchor, TooManyPaths
+        from rules.engine.extract import get_facts, ExtractError
+        try:
+            d, _ = get_facts(S, 'A')
+            P = Program(d, 'A')
+        except ExtractError as e:
+            matrix[sid] = {'error': 'does not compile: ' + str(e)[-300:]}
+            print(sid, 'ANALYSIS ERROR', flush=True)
+            continue
+        known = {k['key'] for k in json.load(open(os.path.join(V, 'known_findings.json'))).get('known', [])}
         for pid in props:
+            mod = importlib.import_module('rules.%s' % pid)
+            ctx = Ctx(pid, 'quick', 0, {'A': P}, {})
             try:
-                rc, ctx = run_property(pid, 'quick', 0, S, quiet=True)
-                if ctx is None:
-                    row[pid] = ['ANALYSIS-ERROR']
-                else:
-                    keys = [v['key'] for v in ctx.violations if v.get('status') != 'known-finding']
-                    if keys:
-                        row[pid] = keys
+                mod.run(ctx)
+            except (MissingAnchor, TooManyPaths) as e:
+                ctx.violation('engine:%s' % e, str(e))
             except Exception as e:
                 row[pid] = ['CRASH: %r' % e]
+                continue
+            keys = [v['key'] for v in ctx.violations if v['key'] not in known]
+            if keys:
+                row[pid] = keys
         matrix[sid] = row
         print(sid, {k: len(v) for k, v in row.items()}, flush=True)
     finally:
